@@ -86,6 +86,7 @@ var fieldTable = map[kind]map[string]member{
 	kFresh: {"IsStale": {"f_stale (%s)", kB}, "Expired": {"f_expired (%s)", kB}, "ReqMaxAgeExceeded": {"f_req_max_age_exceeded (%s)", kB},
 		"UsefulLife": {"f_life (%s)", kD}, "Age": {"%s", kAge}},
 	kAge:     {"Value": {"f_age (%s)", kD}, "Timestamp": {"f_age_ts (%s)", kZ}},
+	kURL:     {"Scheme": {"u_scheme (%s)", kS}},
 	kAgePair: {"Value": {"fst (%s)", kD}, "Timestamp": {"snd (%s)", kT}},
 }
 
@@ -93,6 +94,8 @@ var methodTable = map[kind]map[string]member{
 	kCCr: {"NoStore": {"resp_no_store (%s)", kB}, "MustUnderstand": {"resp_must_understand (%s)", kB}, "Public": {"resp_public (%s)", kB},
 		"MaxAgePresent": {"resp_max_age_present (%s)", kB}, "MustRevalidate": {"resp_must_revalidate (%s)", kB}},
 	kCCq: {"NoStore": {"req_no_store (%s)", kB}, "OnlyIfCached": {"req_only_if_cached (%s)", kB}, "NoCache": {"req_no_cache (%s)", kB}},
+	// net/url: Port() and Hostname() split the Host field at its last colon (brackets of an IP literal removed)
+	kURL: {"Port": {"snd (split_host_port (u_host (%s)))", kS}, "Hostname": {"fst (split_host_port (u_host (%s)))", kS}},
 }
 
 // pure functions of the model, by the Go callee's text
@@ -117,6 +120,8 @@ var pureFuncs = map[string]struct {
 	"withConditionalHeaders":             {"with_conditional_headers (%s) (%s)", kReq, 2},
 	"isHeuristicallyCacheableCode":       {"is_heuristically_cacheable (%s)", kB, 1},
 	"heuristicFreshness":                 {"heuristic_freshness (%s) (%s)", kD, 2},
+	"strings.EqualFold":                  {"eq_fold (%s) (%s)", kB, 2},
+	"defaultPort":                        {"default_port (%s)", kS, 1},
 }
 
 // accessors that return (value, ok): the model's option-valued counterpart and the kind of the value
